@@ -41,9 +41,26 @@ def make_variant(edits, repo=None):
     return d, True, ""
 
 
+def make_variant_from_diff(diff, repo=None):
+    """scratch copy of the current sources with a unified diff applied (seeded changes kept under /verif/seeded)"""
+    import subprocess
+    repo = repo or engine.REPO
+    d = tempfile.mkdtemp(prefix="verif-mut-", dir=SCRATCH_ROOT)
+    shutil.copytree(os.path.join(repo, "src"), os.path.join(d, "src"))
+    for f in ("Cargo.toml", "Cargo.lock"):
+        shutil.copy(os.path.join(repo, f), os.path.join(d, f))
+    r = subprocess.run(["patch", "-p1", "-s", "-i", os.path.abspath(diff)], cwd=d, stdout=subprocess.PIPE, stderr=subprocess.STDOUT, text=True)
+    if r.returncode != 0:
+        return d, False, "patch does not apply to the current tree"
+    return d, True, ""
+
+
 def variant_facts(edits, overflow=True):
     """returns (Facts or None, status) status in {'ok','skipped:<why>','compile-error:<msg>'}"""
-    d, applied, why = make_variant(edits)
+    if isinstance(edits, str):
+        d, applied, why = make_variant_from_diff(edits)
+    else:
+        d, applied, why = make_variant(edits)
     try:
         if not applied:
             return None, "skipped:" + why
@@ -67,7 +84,7 @@ def run_rules_on(mod, F, prop):
 def run_mutant(mod, prop, mutant, known_keys=()):
     """mutant: dict(name, edits, expect(optional rule-id prefix list)).  returns result dict"""
     t0 = time.time()
-    F, st = variant_facts(mutant["edits"], overflow=mutant.get("overflow", True))
+    F, st = variant_facts(mutant.get("diff") or mutant["edits"], overflow=mutant.get("overflow", True))
     if F is None:
         return {"name": mutant["name"], "status": st.split(":")[0], "why": st[:300], "fired": [], "wall": round(time.time() - t0, 2)}
     rep = run_rules_on(mod, F, prop)
@@ -82,9 +99,17 @@ def run_mutant(mod, prop, mutant, known_keys=()):
 def load_catalogue(prop):
     try:
         m = importlib.import_module("mutants_" + prop.lower())
+        cat = list(m.MUTANTS)
     except ImportError:
-        return []
-    return m.MUTANTS
+        cat = []
+    # the seeded changes of independent sub-agents kept for this property (replayed in the thorough tier)
+    import glob
+    here = os.path.dirname(os.path.dirname(os.path.abspath(__file__)))
+    for d in sorted(glob.glob(os.path.join(here, "seeded", prop + "-*"))):
+        p = os.path.join(d, "patch.diff")
+        if os.path.exists(p):
+            cat.append({"name": "seeded:" + os.path.basename(d), "diff": p, "control": False})
+    return cat
 
 
 def run_controls(mod, prop, tier, seed):
